@@ -46,6 +46,10 @@ fn get_server_values_impl(socket: &mut UdpSocket) -> GDResult<HashMap<String, St
         let mut bufferer = Buffer::<LittleEndian>::new(&data);
 
         let mut as_string = bufferer.read_string::<Utf8Decoder>(None)?;
+        if as_string.is_empty() {
+            // there is no leading backslash to remove: not a GameSpy 1 packet
+            return Err(GDErrorKind::PacketBad.context("Empty packet"));
+        }
         as_string.remove(0);
 
         let splited: Vec<String> = as_string.split('\\').map(str::to_string).collect();
